@@ -441,6 +441,8 @@ def run_case(case, fail, stats):
         v1, v2 = outcome(node._get_value), outcome(back[1]._get_value)
         if v1[0] != v2[0] or (v1[0] == "ok" and not same(v1[1], v2[1])):
             fail("C12", "node-roundtrip-value", {"term": t, "got": describe(v2[1]), "want": describe(v1[1])})
+    elif kind == "mgrpickle_default":
+        run_mgrpickle_default(case, fail, stats)
     elif kind == "mgrpickle":
         env = Env(case["vals"])
         del env.box["o"]           # plain picklable containers only
@@ -865,6 +867,53 @@ def same_up_to_zero_signs(b1, b2):
     return eq(b1, b2)
 
 
+def run_mgrpickle_default(case, fail, stats):
+    """C12 on the container `Manager.ref()` makes by default (an `AttrDict`, whose attributes ARE its items): the restored
+    container must still be one object — follow-up assignments in attribute syntax (`ref.name = value`, a plain `Ref` turns
+    that into `setattr` on the container) and in item syntax, mirrored on both copies, leave the same contents, read through
+    items and through attributes."""
+    m = xdeps.Manager()
+    r = m.ref()                                  # default container, default label
+    box = r._owner
+    for k, vj in case["vals"].items():
+        box[k] = val_py(vj)
+    for tgt, (op, a, b) in case["defs"]:
+        box[tgt] = None
+        r[tgt] = {"add": lambda x, y: x + y, "mul": lambda x, y: x * y}[op](r[a], b if not isinstance(b, str) else r[b])
+    stats["mgrpickle_default_cases"] = stats.get("mgrpickle_default_cases", 0) + 1
+    back = outcome(lambda: pickle.loads(pickle.dumps(m)))
+    if back[0] != "ok":
+        fail("C12", "manager-pickle-raises", {"default_container": True, "exc": back[1]})
+        return
+    m2 = back[1]
+    label = [k for k in m.containers][0]
+    r2 = m2.containers[label]
+    box2 = r2._owner
+
+    def view(b):
+        # contents through items and through attributes (for an AttrDict they are the same thing)
+        items = {str(k): repr(v) for k, v in sorted(b.items(), key=lambda kv: str(kv[0]))}
+        attrs = {str(k): repr(getattr(b, k, "<no attribute>")) for k in sorted(b.keys(), key=str) if isinstance(k, str)}
+        return {"items": items, "attrs": attrs}
+
+    if view(box) != view(box2) or m.dump() != m2.dump():
+        fail("C12", "restored-default-container-differs", {"original": view(box), "copy": view(box2)})
+        return
+    for how, name, vj in case["follow"]:
+        v = val_py(vj)
+        outs = []
+        for rr in (r, r2):
+            outs.append(outcome(lambda: setattr(rr, name, v) if how == "attr" else rr.__setitem__(name, v)))
+        if outs[0][0] != outs[1][0]:
+            fail("C12", "copies-raise-differently", {"default_container": True, "assign": [how, name], "original": outs[0], "copy": outs[1]})
+            return
+        stats["mgrpickle_followups"] = stats.get("mgrpickle_followups", 0) + 1
+        if view(box) != view(box2):
+            fail("C12", "copies-diverge", {"default_container": True, "defs": case["defs"], "assign": [how, name, vj],
+                                            "original": view(box), "copy": view(box2)})
+            return
+
+
 def snapshot(box):
     out = {}
     for k, v in box.items():
@@ -1179,6 +1228,11 @@ def cases_c13(rng, n):
 
 
 def cases_c12(rng, n):
+    # the default container of Manager.ref() (an AttrDict): follow-ups in attribute and in item syntax
+    for follow in ([["item", "a", {"float": (5.0).hex()}], ["attr", "a", {"float": (7.0).hex()}], ["item", "k", {"int": 4}]],
+                   [["attr", "k", {"int": 3}], ["attr", "a", {"float": (-1.5).hex()}]]):
+        yield {"kind": "mgrpickle_default", "vals": {"a": {"float": (1.0).hex()}, "k": {"int": 2}},
+               "defs": [["b", ["mul", "a", 2]], ["c", ["add", "b", "k"]]], "follow": follow}
     for t in [["builtin", "abs", ["ref", "v0"], []], ["builtin", "round", ["ref", "v0"], []],
               ["builtin", "round", ["ref", "v0"], [["lit", {"int": 1}]]], ["builtin", "floor", ["ref", "v0"], []],
               ["call", "fadd", [["ref", "v0"]], [["y", ["ref", "v1"]]]], ["un", "neg", ["ref", "v0"]],
@@ -1384,7 +1438,7 @@ def main():
         try:
             run_case(case, fail, stats)
         except RecursionError:
-            fail({"pickle": "C12", "mgrpickle": "C12"}.get(case["kind"], "C04"), "RecursionError", {"case": case})
+            fail({"pickle": "C12", "mgrpickle": "C12", "mgrpickle_default": "C12"}.get(case["kind"], "C04"), "RecursionError", {"case": case})
         line = {k: v for k, v in case.items() if not k.startswith("_")}
         line["op"] = case["kind"]
         line["hist"] = i
